@@ -651,7 +651,7 @@ class Messenger(Connection):
         self._logger.debug('RX buffer size %d octets', len(self.__rx_buf))
 
         # Handle as many messages as are present
-        while self.__rx_buf:
+        while self.__rx_buf and self.get_app_socket() is not None:
             if self._in_conn:
                 msgcls = messages.MessageHead
                 if not any(fval.get('msg_id') == self.__rx_buf[0]
